@@ -138,3 +138,35 @@ Theorem C09_sound_instruction_level :
 Proof. exact @run_all_fee_sound_ins. Qed.
 
 Print Assumptions C09_sound_instruction_level.
+
+(* ------------------------------------------------------------------------------------------------------------
+   Extension (third round): the operand-order / constant-extraction WRAPPER of this domain is REGENERATED from the Python
+   source (tools/translate_single.py -> Gen/SingleGen.v, in an exception monad) and proved equal to the model's wrapper on
+   every comparison of table arity (Lemmas/SingleGenLemmas.v): an edit of the wrapper in /repo changes the subject of
+   these theorems on the next run. *)
+From Coq Require Import List String NArith ZArith Bool Arith.
+From Tealer Require Import Tables Leaves LeafPrelude Syntax Parse Cfg StackAst Keys KeysGen SingleGen Analysis Domains Eval LeafLemmas SingleLemmas ExecLemmas TypeLemmas SingleGenLemmas.
+
+Theorem C09_wrapper_regenerated :
+  forall (intcs : option (list N)) (fam : keyfam) (op : instr) (pos : nat) (args : list sval),
+       stack_pop_size op = Some (Datatypes.length args) -> fee_single_gen intcs fam op pos args = Some (fee_single intcs fam op pos args).
+Proof. exact @fee_single_gen_eq_table. Qed.
+
+(* single-leaf soundness stated for the regenerated wrapper *)
+Theorem C09_wrapper_regenerated_sound :
+  forall (e : env) (fam : keyfam) (op : instr) (pos : nat) (args : list sval) (t : N) (x : Z) (b : bool) (r : feeval * feeval),
+       key_txn e fam = Some t ->
+       e_field e t "Fee" = VInt x ->
+       (0 <= x <= MAX_UINT64z)%Z ->
+       const_compared (e_intcs e) fam "Fee" args ->
+       leaf_truth e op args = Some b -> fee_single_gen (e_intcs e) fam op pos args = Some r -> fee_gamma (if b then fst r else snd r) x.
+Proof. exact @fee_single_gen_sound. Qed.
+
+(* the regenerated _mirrored_comparison is the mirror of the comparison *)
+Theorem C09_mirror_regenerated :
+  forall i : instr, cmpop_of (mirrored_comparison_gen i) = mirror (cmp_of i).
+Proof. exact @mirrored_comparison_gen_mirror. Qed.
+
+Print Assumptions C09_wrapper_regenerated.
+Print Assumptions C09_wrapper_regenerated_sound.
+Print Assumptions C09_mirror_regenerated.
